@@ -3,7 +3,8 @@
    specification (headers, versions, streams) in Proofs/XfrSpec.v. *)
 From DV Require Import Base.Prelude Model.XfrM Proofs.XfrSpec.
 From DV Require Proofs.XfrZone Proofs.XfrDiff.
-From DV Require Proofs.XfrSafety Proofs.XfrBasic Proofs.XfrIxfr Proofs.XfrAxfr Proofs.XfrFault Proofs.XfrOrder Proofs.XfrRefresh Proofs.XfrGlue Proofs.XfrTsig Proofs.XfrSections Proofs.XfrGroup Proofs.XfrSoaFaults.
+From DV Require Proofs.XfrSafety Proofs.XfrBasic Proofs.XfrIxfr Proofs.XfrAxfr Proofs.XfrFault Proofs.XfrOrder Proofs.XfrRefresh Proofs.XfrGlue Proofs.XfrTsig Proofs.XfrSections Proofs.XfrGroup Proofs.XfrSoaFaults Proofs.XfrTsigLink.
+From DV Require Model.TsigM.
 From Coq Require Import Sorting.Permutation.
 
 (* Whatever is received (any messages, any records, any chunking, any fault), if the transfer ends
@@ -490,6 +491,18 @@ Theorem xfr_run_all_signed : forall z rdt ser udp ws,
   xfr_run true z rdt ser udp ws = inbound_xfr z rdt ser udp ws.
 Proof. exact XfrTsig.xfr_run_all_signed. Qed.
 Print Assumptions xfr_run_all_signed.
+
+(* the link to the TSIG model of C14 (coq/Model/TsigM.v): when the had_tsig flags of the transfer's
+   messages are those computed by TsigM.read_stream on the envelopes (XfrTsigLink.tsig_linked), the
+   envelope that completed an authenticated transfer was accepted by the TSIG reader with a TSIG *)
+Theorem completion_envelope_had_tsig :
+  forall (H : TsigM.hashid -> TsigM.bytes -> TsigM.bytes -> TsigM.bytes) wires kr rmac now ws z rdt ser udp z' n,
+  XfrTsigLink.tsig_linked H wires kr rmac now ws ->
+  xfr_run true z rdt ser udp ws = (Done z', n) ->
+  exists m, nth_error (TsigM.read_stream H wires kr rmac None now) (pred n) = Some (Ok m)
+            /\ TsigM.m_had_tsig m = true.
+Proof. exact XfrTsigLink.completion_envelope_had_tsig. Qed.
+Print Assumptions completion_envelope_had_tsig.
 
 (* ---- decision tables ---- *)
 
